@@ -72,6 +72,17 @@ def run(ctx):
         else:
             r.check("R18.1", passed and not touched, "type=%s" % ty, f.where, "alphabetical filter on a %s token: yields=%d stores=%s" % (
                 ty, len(ys), [s.text for s in stores]), detail={"type": ty, "data_replaced": bool(stores)})
+    # every ordering of the attributes goes through the key function (raw (namespace, name) tuples compare None with str)
+    sorts = [c for c in ast.walk(f.node) if isinstance(c, ast.Call) and norm(c.func) in ("sorted",) or
+             (isinstance(c, ast.Call) and isinstance(c.func, ast.Attribute) and c.func.attr == "sort")]
+    for i, c in enumerate(sorts):
+        kw = [k for k in c.keywords if k.arg == "key"]
+        r.check("R18.2", len(kw) == 1 and norm(kw[0].value) == "_attr_key", "sorted-with-key@%d" % i, "%s:%d" % (REL, c.lineno),
+                "`%s` orders attributes without the key function: keys are (namespace, name) tuples, so an attribute with namespace "
+                "None next to one with namespace '' raises TypeError, and the order is not (namespace or '', local name)" % norm(c)[:60],
+                detail={"call": norm(c)[:60]})
+    if not sorts:
+        r.idiom("R18.2", False, "sorted-with-key", f.where, "no sorting call found in the filter")
     # R18.2
     loops = {id(x): x for x in rebuild}
     if not loops and direct:
